@@ -393,6 +393,48 @@ pub fn find(args: &[String]) -> i32 {
       }
     }
   }
+  // (f) floats: every half-precision value (exhaustive), single and double precision values with patterned
+  // bytes and a list of values that are not exactly representable in a narrower width
+  for h in 0..=0xffffu32 {
+    let b = [0xf9, (h >> 8) as u8, h as u8];
+    tried += 1;
+    if let Some(why) = check(&b, true) {
+      return report(tried, &b, &why);
+    }
+  }
+  let pats = [0x00u8, 0x01, 0x3d, 0x7f, 0x80, 0xcc, 0xcd, 0xff];
+  for x in 0..(pats.len() as u32).pow(4) {
+    let mut b = vec![0xfa];
+    for i in 0..4 {
+      b.push(pats[((x / (pats.len() as u32).pow(i)) % pats.len() as u32) as usize]);
+    }
+    tried += 1;
+    if let Some(why) = check(&b, true) {
+      return report(tried, &b, &why);
+    }
+  }
+  for v in [0.1f32, 1.0 / 3.0, f32::MAX, f32::MIN_POSITIVE, 1.0e-45, 16777217.0, -0.0, f32::INFINITY, f32::NAN, 65504.0, 65520.0, 5.9604645e-8] {
+    let mut b = vec![0xfa];
+    b.extend_from_slice(&v.to_bits().to_be_bytes());
+    tried += 1;
+    if let Some(why) = check(&b, true) {
+      return report(tried, &b, &why);
+    }
+    let mut b = vec![0xfb];
+    b.extend_from_slice(&(v as f64).to_bits().to_be_bytes());
+    tried += 1;
+    if let Some(why) = check(&b, true) {
+      return report(tried, &b, &why);
+    }
+  }
+  for v in [0.1f64, 1.0 / 3.0, f64::MAX, f64::MIN_POSITIVE, 5e-324, 9007199254740993.0, -0.0, f64::NAN, 1.0e39, 3.4028235677973366e38] {
+    let mut b = vec![0xfb];
+    b.extend_from_slice(&v.to_bits().to_be_bytes());
+    tried += 1;
+    if let Some(why) = check(&b, true) {
+      return report(tried, &b, &why);
+    }
+  }
   println!("{{\"found\":false,\"tried\":{}}}", tried);
   0
 }
